@@ -78,7 +78,7 @@ with rkind :=
 | RKSomeTo (a : N) (ci : citem)
 | RKNotify (a : N) (inner : option (N * citem))
 | RKSlab (p key : N) (inner : ret)
-with citem := CI (uid cid : N) (kind : ckind) (caps : list (N * hval))
+with citem := CI (uid cid : N) (kind : ckind) (caps : list (N * hval)) (sq : option qk)   (* sq: the queue it was handed to *)
 with ckind :=
 | KPlain (body : list act)
 | KMeth (a : N) (body : list act) (arg : option N)
@@ -87,9 +87,12 @@ with ckind :=
 | KTerm (a : N)
 | KKill (a e : N).
 
-Definition ci_uid (c : citem) := match c with CI u _ _ _ => u end.
-Definition ci_kind (c : citem) := match c with CI _ _ k _ => k end.
-Definition ci_caps (c : citem) := match c with CI _ _ _ l => l end.
+Definition ci_uid (c : citem) := match c with CI u _ _ _ _ => u end.
+Definition ci_kind (c : citem) := match c with CI _ _ k _ _ => k end.
+Definition ci_caps (c : citem) := match c with CI _ _ _ l _ => l end.
+Definition ci_sq (c : citem) := match c with CI _ _ _ _ q => q end.
+Definition ci_call (c : citem) : bool := match ci_kind c with KPlain _ => false | _ => true end.
+Definition ci_setq (c : citem) (q : qk) : citem := match c with CI u i k l _ => CI u i k l (Some q) end.
 
 Inductive msg := MNum (v : N) | MCause (c : cause).
 
@@ -99,12 +102,12 @@ Inductive ev :=
 | EDropBegin | EDropFields | EDropEnd | EEpilogue
 | EClo (uid cid : N)                 (* closure instance created *)
 | ETarget (uid a : N) (prep : bool)  (* ... it is a call to actor a (Ready method / Prep method) *)
-| ESub (q : qk) (uid : N)            (* ... and handed to a queue / timer *)
-| ERun (uid : N) (now : Z)           (* plain closure body starts *)
+| ESub (q : qk) (uid : N) (call : bool)   (* ... and handed to a queue / timer (call: an actor call, not a plain closure) *)
+| ERun (uid : N) (now : Z) (q : qk)  (* plain closure body starts; q: the queue it came from *)
 | EMeth (a uid : N) (now : Z)        (* Ready method starts *)
 | EPrep (a uid : N) (now : Z)        (* Prep method starts *)
 | EEnd (uid : N)                     (* body finished (before its captures are dropped) *)
-| EDrop (uid : N)                    (* closure dropped without running *)
+| EDrop (uid : N) (q : option qk) (call : bool)   (* closure dropped without running *)
 | EActor (a : N)                     (* actor created (its notifier exists from here) *)
 | EOwnNew (a : N) | EOwnDrop (a : N)
 | EReady (a : N)
